@@ -209,19 +209,78 @@ theorem splitComps_pinned (X : Ctx) {e : Country} {bank : Option BankEntry}
       · rw [if_neg hk2]; exact hpad
   · exact hpad
 
+/-- The registry bank `random.choice(banks)` picked (if any). -/
+def chosenBank (X : Ctx) (cc : Str) (useReg : Bool) (ch : Choice) : Option BankEntry :=
+  match X.R.byCountry cc, useReg, ch.bank with
+  | some banks, true, some i => banks[i]?
+  | _, _, _ => none
+
 /-- What a successful `BBAN.random` returns for a country with published positions: the BBAN
     `from_components` made of the components of one recorded attempt. -/
 theorem bban_random_ok (X : Ctx) {cc : Str} {useReg : Bool} {pinned : List (Component × Str)}
     {ch : Choice} {b : Str} {e : Country} (hl : X.T.lookup cc = some e)
     (hps : e.positions.isSome = true) (h : BBAN.random X cc useReg pinned ch = .ok b) :
-    ∃ bank x, BBAN.fromComponents X cc (randomComponents e bank pinned (pyUpper X.U x)) = .ok b := by
+    ∃ x, BBAN.fromComponents X cc
+      (randomComponents e (chosenBank X cc useReg ch) pinned (pyUpper X.U x)) = .ok b := by
   unfold BBAN.random bbanSpec at h
   rw [hl] at h
   simp only [Res.ok_bind] at h
   have hpn : e.positions.isNone = false := by cases hq : e.positions <;> simp [hq] at hps ⊢
   simp only [hpn, Bool.false_eq_true, ↓reduceIte] at h
   obtain ⟨x, _, hx⟩ := loop_ok X cc e _ pinned 100 ch.xegers b h
-  exact ⟨_, x, hx⟩
+  exact ⟨x, hx⟩
+
+/-- **Where the components of a random IBAN sit.**  If `IBAN.random` returns an IBAN for a country
+    with published positions and the pinned values conform, every component other than the check
+    digits is found in the IBAN's BBAN at its published position, as `from_components` made it of the
+    values of the successful attempt. -/
+theorem random_placement (X : Ctx) (hU : X.U.WF) (hT : X.T.WF) {cc : Str} (hA : C08.defaultsNat X.A cc)
+    {useReg : Bool} {pinned : List (Component × Str)} {ch : Choice} {i : Str} {e : Country}
+    (hl : X.T.lookup cc = some e) (hps : e.positions.isSome = true)
+    (hP : PinnedOk X.U e pinned) (hD : DefaultsOk X.U e)
+    (h : IBAN.random X cc useReg pinned ch = .ok i) :
+    ∃ x, (i.drop 4).length = e.bbanLength ∧ ∀ k r, publishedAt e k r → k ≠ .nationalChecksumDigits →
+      slice (i.drop 4) r.start r.stop =
+        splitComps X e (randomComponents e (chosenBank X cc useReg ch) pinned (pyUpper X.U x)) k := by
+  unfold IBAN.random at h
+  cases hb : BBAN.random X cc useReg pinned ch with
+  | err _ => rw [hb] at h; cases h
+  | crash _ => rw [hb] at h; cases h
+  | ok b =>
+    rw [hb] at h
+    simp only [Res.ok_bind] at h
+    obtain ⟨x, hfc⟩ := bban_random_ok X hl hps hb
+    obtain ⟨e', cs, hl', _, hb1, hb2, hb3, hcs, hbeq⟩ := fromComponents_ok X hfc
+    rw [hl] at hl'; cases hl'
+    have hW := hT e (Table.lookup_mem hl).1
+    have hbc : Compact X.U b := by rw [hbeq]; exact compact_clean hU _
+    obtain ⟨hblen, _, hdrop, _, _⟩ := C08.fromBban_ok X hU hT hl hbc h
+    have hcsC := C08.computeNational_compact X hU hA _ hcs
+    have hfit : ∀ k r, publishedAt e k r → k ≠ .nationalChecksumDigits →
+        (splitComps X e (randomComponents e (chosenBank X cc useReg ch) pinned (pyUpper X.U x)) k).length
+          ≤ r.stop - r.start := by
+      intro k r hpk hk
+      have hwid : (e.range k).length = r.stop - r.start := by rw [range_of_published hpk]; rfl
+      rw [← hwid]
+      by_cases h1 : k = .bankCode
+      · subst h1; exact hb1
+      by_cases h2 : k = .branchCode
+      · subst h2; exact hb2
+      have : splitComps X e (randomComponents e (chosenBank X cc useReg ch) pinned (pyUpper X.U x)) k =
+          padComps X e (randomComponents e (chosenBank X cc useReg ch) pinned (pyUpper X.U x)) k := by
+        unfold splitComps
+        split
+        · show (if k = Component.bankCode then _ else if k = Component.branchCode then _ else _) = _
+          rw [if_neg h1, if_neg h2]
+        · rfl
+      rw [this]
+      unfold padComps
+      rw [zfill_length, valuesGet_random]
+      have := rcValue_other_fits hU (bank := chosenBank X cc useReg ch) hP hD x h1 h2
+      omega
+    have hpl := fromComponents_placement X hU hW _ hcsC hfit hbeq hblen
+    refine ⟨x, by rw [hdrop]; exact hblen, fun k r hpub hkn => ?_⟩
+    rw [hdrop]; exact hpl.1 k r hpub hkn
 
 /-- **Pinned components are read back.**  If `IBAN.random` returns an IBAN for a country with
     published positions, and the pinned values are compact texts no longer than their fields, then
@@ -235,43 +294,193 @@ theorem pinned_readback (X : Ctx) (hU : X.U.WF) (hT : X.T.WF) {cc : Str} (hA : C
     ∀ k v r, pinned.lookup k = some v → (k = .branchCode → v ≠ []) → publishedAt e k r →
       k ≠ .nationalChecksumDigits → slice (i.drop 4) r.start r.stop = zfill v (r.stop - r.start) := by
   intro k v r hp hne hpub hkn
-  unfold IBAN.random at h
-  cases hb : BBAN.random X cc useReg pinned ch with
-  | err _ => rw [hb] at h; cases h
-  | crash _ => rw [hb] at h; cases h
-  | ok b =>
-    rw [hb] at h
-    simp only [Res.ok_bind] at h
-    obtain ⟨bank, x, hfc⟩ := bban_random_ok X hl hps hb
-    obtain ⟨e', cs, hl', _, hb1, hb2, hb3, hcs, hbeq⟩ := fromComponents_ok X hfc
-    rw [hl] at hl'; cases hl'
-    have hW := hT e (Table.lookup_mem hl).1
-    have hbc : Compact X.U b := by rw [hbeq]; exact compact_clean hU _
-    obtain ⟨hblen, _, hdrop, _, _⟩ := C08.fromBban_ok X hU hT hl hbc h
-    have hcsC := C08.computeNational_compact X hU hA _ hcs
-    have hfit : ∀ k r, publishedAt e k r → k ≠ .nationalChecksumDigits →
-        (splitComps X e (randomComponents e bank pinned (pyUpper X.U x)) k).length ≤ r.stop - r.start := by
-      intro k r hpk hk
-      have hwid : (e.range k).length = r.stop - r.start := by rw [range_of_published hpk]; rfl
-      rw [← hwid]
-      by_cases h1 : k = .bankCode
-      · subst h1; exact hb1
-      by_cases h2 : k = .branchCode
-      · subst h2; exact hb2
-      have : splitComps X e (randomComponents e bank pinned (pyUpper X.U x)) k =
-          padComps X e (randomComponents e bank pinned (pyUpper X.U x)) k := by
-        unfold splitComps
-        split
-        · show (if k = Component.bankCode then _ else if k = Component.branchCode then _ else _) = _
-          rw [if_neg h1, if_neg h2]
-        · rfl
-      rw [this]
+  obtain ⟨x, _, hpl⟩ := random_placement X hU hT hA hl hps hP hD h
+  rw [hpl k r hpub hkn, splitComps_pinned X hP _ hp hne, range_of_published hpub]
+  rfl
+
+/-! ### a registry-based draw belongs to the drawn bank -/
+
+theorem rcBase_bank (e : Country) {bk : BankEntry} {pinned : List (Component × Str)} (bban : Str)
+    (hp : pinned.lookup .bankCode = none) (hne : bk.bankCode ≠ []) :
+    rcBase e (some bk) pinned bban .bankCode = bk.bankCode := by
+  have : (bk.bankCode != []) = true := by simpa using hne
+  simp [rcBase, hp, bankGet, this]
+
+theorem getSlice_pub {e : Country} (hW : e.WF) {b : Str} (hb : b.length = e.bbanLength)
+    {k : Component} {r : Range} (hp : publishedAt e k r) :
+    getSlice b (e.range k).start (some (e.range k).stop) = slice b r.start r.stop := by
+  rw [range_of_published hp]
+  have := hW.bounds (k, r) (mem_of_lookup hp)
+  simp only at this
+  simp [getSlice, hb]; omega
+
+/-- **Listed-bank membership.**  If the draw used the registry bank `bk` (bank and branch code not
+    pinned) and `bk`'s bank code is a compact text of the width of the country's bank-identifying
+    field — the bank code field, or bank and branch code fields together — then the bank-identifying
+    key of the returned IBAN is `bk`'s bank code. -/
+theorem listed_bank (X : Ctx) (hU : X.U.WF) (hT : X.T.WF) {cc : Str} (hA : C08.defaultsNat X.A cc)
+    {useReg : Bool} {pinned : List (Component × Str)} {ch : Choice} {i : Str} {e : Country}
+    (hl : X.T.lookup cc = some e) (hps : e.positions.isSome = true)
+    (hP : PinnedOk X.U e pinned) (hD : DefaultsOk X.U e)
+    (hpb : pinned.lookup .bankCode = none) (hpr : pinned.lookup .branchCode = none)
+    {bk : BankEntry} (hbank : chosenBank X cc useReg ch = some bk)
+    (hne : bk.bankCode ≠ []) (hc : Compact X.U bk.bankCode)
+    {rb : Range} (hrb : publishedAt e .bankCode rb)
+    (hkey : (e.bicLookup.getD [.bankCode] = [.bankCode] ∧ bk.bankCode.length = rb.stop - rb.start) ∨
+      (∃ rr, publishedAt e .branchCode rr ∧ e.bicLookup.getD [.bankCode] = [.bankCode, .branchCode] ∧
+        bk.bankCode.length = (rb.stop - rb.start) + (rr.stop - rr.start)))
+    (h : IBAN.random X cc useReg pinned ch = .ok i) :
+    lookupKey e (i.drop 4) = bk.bankCode := by
+  obtain ⟨x, hblen, hpl⟩ := random_placement X hU hT hA hl hps hP hD h
+  rw [hbank] at hpl
+  have hW := hT e (Table.lookup_mem hl).1
+  have hbl : (e.range .bankCode).length = rb.stop - rb.start := by rw [range_of_published hrb]; rfl
+  have hbase := rcBase_bank e (pinned := pinned) (pyUpper X.U x) hpb hne
+  have hpbN : (pinned.lookup Component.bankCode).isNone = true := by rw [hpb]; rfl
+  have hprN : (pinned.lookup Component.branchCode).isNone = true := by rw [hpr]; rfl
+  rcases hkey with ⟨hL, hlen⟩ | ⟨rr, hrr, hL, hlen⟩
+  · -- the key is the bank code field
+    have hval : rcValue e (some bk) pinned (pyUpper X.U x) .bankCode = bk.bankCode := by
+      unfold rcValue
+      simp only [hbase, hpbN, ↓reduceIte, hbl]
+      have hnb : (Component.bankCode == Component.branchCode) = false := by decide
+      simp only [hnb, Bool.and_false, Bool.false_eq_true, ↓reduceIte, beq_self_eq_true, Bool.and_true]
+      split
+      · rw [List.take_take, Nat.min_self, List.take_of_length_le (by omega)]
+      · rw [List.take_of_length_le (by omega)]
+    have hpad : padComps X e (randomComponents e (some bk) pinned (pyUpper X.U x)) .bankCode =
+        bk.bankCode := by
       unfold padComps
-      rw [zfill_length, valuesGet_random]
-      have := rcValue_other_fits hU (bank := bank) hP hD x h1 h2
-      omega
-    have hpl := fromComponents_placement X hU hW _ hcsC hfit hbeq hblen
-    rw [hdrop, hpl.1 k r hpub hkn, splitComps_pinned X hP _ hp hne, range_of_published hpub]
+      rw [valuesGet_random, hval, clean_of_compact hc, hbl]
+      exact zfill_exact _ _ hlen
+    have hsp : splitComps X e (randomComponents e (some bk) pinned (pyUpper X.U x)) .bankCode =
+        bk.bankCode := by
+      unfold splitComps
+      have : splitsB X e (randomComponents e (some bk) pinned (pyUpper X.U x)) = false := by
+        unfold splitsB
+        rw [hpad]
+        by_cases h0 : (e.range .branchCode).length = 0
+        · simp [h0]
+        · simp only [Bool.and_eq_false_iff, beq_eq_false_iff_ne, ne_eq, decide_eq_false_iff_not]
+          right; rw [hbl]; omega
+      rw [this]; exact hpad
+    unfold lookupKey
+    rw [hL]
+    simp only [componentsOf, joinStrs, List.flatten_cons, List.flatten_nil, List.append_nil]
+    rw [getSlice_pub hW hblen hrb, hpl .bankCode rb hrb (by decide), hsp]
+  · -- the key is bank code field followed by branch code field
+    have hrl : (e.range .branchCode).length = rr.stop - rr.start := by rw [range_of_published hrr]; rfl
+    have hrpos : 0 < rr.stop - rr.start := by
+      have := hW.bounds (_, rr) (mem_of_lookup hrr); simp only at this; omega
+    have hsplit : rcSplit e (some bk) pinned (pyUpper X.U x) = true := by
+      simp only [rcSplit, hprN, hbase, Bool.true_and, decide_eq_true_eq, hbl, hrl]; omega
+    have hvalB : rcValue e (some bk) pinned (pyUpper X.U x) .bankCode =
+        bk.bankCode.take (rb.stop - rb.start) := by
+      unfold rcValue
+      have hnb : (Component.bankCode == Component.branchCode) = false := by decide
+      simp only [hbase, hpbN, ↓reduceIte, hbl, hrl, hsplit, hnb, Bool.and_false, Bool.false_eq_true,
+        Bool.true_and, beq_self_eq_true, hlen]
+      rw [List.take_take, Nat.min_self]
+    have hvalR : rcValue e (some bk) pinned (pyUpper X.U x) .branchCode =
+        slice bk.bankCode (rb.stop - rb.start) ((rb.stop - rb.start) + (rr.stop - rr.start)) := by
+      unfold rcValue
+      simp only [hbase, hprN, ↓reduceIte, hbl, hrl, hsplit, beq_self_eq_true, Bool.and_self]
+      rw [List.take_of_length_le (by rw [slice_length (by omega)]; omega)]
+    have hpadB : padComps X e (randomComponents e (some bk) pinned (pyUpper X.U x)) .bankCode =
+        bk.bankCode.take (rb.stop - rb.start) := by
+      unfold padComps
+      rw [valuesGet_random, hvalB, clean_of_compact (compact_take hc _), hbl]
+      exact zfill_exact _ _ (by rw [List.length_take]; omega)
+    have hpadR : padComps X e (randomComponents e (some bk) pinned (pyUpper X.U x)) .branchCode =
+        slice bk.bankCode (rb.stop - rb.start) ((rb.stop - rb.start) + (rr.stop - rr.start)) := by
+      unfold padComps
+      rw [valuesGet_random, hvalR, clean_of_compact (compact_slice hc _ _), hrl]
+      exact zfill_exact _ _ (by rw [slice_length (by omega)]; omega)
+    have hns : splitsB X e (randomComponents e (some bk) pinned (pyUpper X.U x)) = false := by
+      unfold splitsB
+      rw [valuesGet_random, hvalR, clean_of_compact (compact_slice hc _ _)]
+      have : slice bk.bankCode (rb.stop - rb.start) ((rb.stop - rb.start) + (rr.stop - rr.start)) ≠ [] := by
+        intro h0
+        have := slice_length (b := bk.bankCode) (s := rb.stop - rb.start)
+          (t := (rb.stop - rb.start) + (rr.stop - rr.start)) (by omega)
+        rw [h0] at this; simp at this; omega
+      simp [this]
+    have hspB : splitComps X e (randomComponents e (some bk) pinned (pyUpper X.U x)) .bankCode =
+        bk.bankCode.take (rb.stop - rb.start) := by
+      unfold splitComps; rw [hns]; exact hpadB
+    have hspR : splitComps X e (randomComponents e (some bk) pinned (pyUpper X.U x)) .branchCode =
+        slice bk.bankCode (rb.stop - rb.start) ((rb.stop - rb.start) + (rr.stop - rr.start)) := by
+      unfold splitComps; rw [hns]; exact hpadR
+    unfold lookupKey
+    rw [hL]
+    simp only [componentsOf, joinStrs, List.flatten_cons, List.flatten_nil, List.append_nil]
+    rw [getSlice_pub hW hblen hrb, getSlice_pub hW hblen hrr, hpl .bankCode rb hrb (by decide),
+      hpl .branchCode rr hrr (by decide), hspB, hspR]
+    unfold slice
+    have ht : bk.bankCode.take ((rb.stop - rb.start) + (rr.stop - rr.start)) = bk.bankCode :=
+      List.take_of_length_le (by omega)
+    rw [ht, List.take_append_drop]
+
+/-- The bank the draw picked is an entry of the registry for that country. -/
+theorem chosenBank_mem {X : Ctx} {cc : Str} {useReg : Bool} {ch : Choice} {bk : BankEntry}
+    (h : chosenBank X cc useReg ch = some bk) : bk ∈ X.R ∧ bk.countryCode = cc ∧ cc ≠ [] := by
+  unfold chosenBank at h
+  cases hb : X.R.byCountry cc with
+  | none => simp [hb] at h
+  | some banks =>
+    cases useReg with
+    | false => simp [hb] at h
+    | true =>
+      cases hi : ch.bank with
+      | none => simp [hb, hi] at h
+      | some i =>
+        simp only [hb, hi] at h
+        unfold Registry.byCountry at hb
+        by_cases hc : cc = []
+        · simp [hc] at hb
+        · simp only [hc, ↓reduceIte] at hb
+          have hm : bk ∈ banks := List.mem_of_getElem? h
+          cases hf : X.R.filter (fun e => e.countryCode == cc) with
+          | nil => rw [hf] at hb; cases hb
+          | cons y t =>
+            rw [hf] at hb
+            have : banks = y :: t := by cases hb; rfl
+            rw [this, ← hf] at hm
+            simp only [List.mem_filter, beq_iff_eq] at hm
+            exact ⟨hm.1, hm.2, hc⟩
+
+/-- …so the IBAN's `bank` lookup finds an entry of the registry with the drawn bank's bank code:
+    a registry-based draw belongs to a listed bank. -/
+theorem listed_bank_found (X : Ctx) (hU : X.U.WF) (hT : X.T.WF) {cc : Str} (hA : C08.defaultsNat X.A cc)
+    {useReg : Bool} {pinned : List (Component × Str)} {ch : Choice} {i : Str} {e : Country}
+    (hl : X.T.lookup cc = some e) (hps : e.positions.isSome = true)
+    (hP : PinnedOk X.U e pinned) (hD : DefaultsOk X.U e)
+    (hpb : pinned.lookup .bankCode = none) (hpr : pinned.lookup .branchCode = none)
+    {bk : BankEntry} (hbank : chosenBank X cc useReg ch = some bk)
+    (hne : bk.bankCode ≠ []) (hc : Compact X.U bk.bankCode)
+    {rb : Range} (hrb : publishedAt e .bankCode rb)
+    (hkey : (e.bicLookup.getD [.bankCode] = [.bankCode] ∧ bk.bankCode.length = rb.stop - rb.start) ∨
+      (∃ rr, publishedAt e .branchCode rr ∧ e.bicLookup.getD [.bankCode] = [.bankCode, .branchCode] ∧
+        bk.bankCode.length = (rb.stop - rb.start) + (rr.stop - rr.start)))
+    (h : IBAN.random X cc useReg pinned ch = .ok i) :
+    ∃ y, BBAN.bank X cc (i.drop 4) = .ok (some y) ∧ y ∈ X.R ∧ y.countryCode = cc ∧
+      y.bankCode = bk.bankCode := by
+  have hk := listed_bank X hU hT hA hl hps hP hD hpb hpr hbank hne hc hrb hkey h
+  obtain ⟨hmem, hcc, hccne⟩ := chosenBank_mem hbank
+  have hmemf : bk ∈ X.R.filter (fun y => y.countryCode == cc && y.bankCode == bk.bankCode) := by
+    simp [List.mem_filter, hmem, hcc]
+  cases hfl : X.R.filter (fun y => y.countryCode == cc && y.bankCode == bk.bankCode) with
+  | nil => rw [hfl] at hmemf; cases hmemf
+  | cons y t =>
+    have hy : y ∈ X.R.filter (fun y => y.countryCode == cc && y.bankCode == bk.bankCode) := by
+      rw [hfl]; simp
+    simp only [List.mem_filter, Bool.and_eq_true, beq_iff_eq] at hy
+    refine ⟨y, ?_, hy.1, hy.2.1, hy.2.2⟩
+    unfold BBAN.bank bbanSpec
+    rw [hl]
+    simp only [Res.ok_bind, hk, Registry.byBankCode]
+    have hcond : (cc = [] || bk.bankCode = []) = false := by simp [hccne, hne]
+    simp only [hcond, Bool.false_eq_true, ↓reduceIte, hfl]
     rfl
 
 /-! ### Instance: the live tables -/
@@ -310,5 +519,13 @@ theorem live_pinned_readback (R : Registry) {cc : Str} {useReg : Bool}
 example : IBAN.random (Gen.ctx []) (C06.bytes "DE") false [(.accountCode, C06.bytes "532013000")]
     ⟨none, [C06.bytes "370400449999999999"]⟩ = .ok (C06.bytes "DE89370400440532013000") := by
   decide +kernel
+
+/-! Non-vacuity of `listed_bank`: a registry-based draw for DE (registry with one German bank, the
+    bank index 0 drawn, one `xeger` string) carries the drawn bank's code and is found again. -/
+example :
+    let R : Registry := [⟨C06.bytes "DE", C06.bytes "37040044", some (C06.bytes "COBADEFFXXX"), true, none,
+      C06.bytes "Commerzbank", C06.bytes "Commerzbank"⟩]
+    IBAN.random (Gen.ctx R) (C06.bytes "DE") true [] ⟨some 0, [C06.bytes "999999990532013000"]⟩ =
+      .ok (C06.bytes "DE89370400440532013000") := by decide +kernel
 
 end SV.Props.C13
